@@ -139,6 +139,17 @@ def checkCase (j : Json) : Except String Verdict := do
       -- property only if … it is never allowed: identical overlapping calls must coalesce? No: the property bounds
       -- merging, it does not require it.  Nothing to check here.
     idx := idx + 1
+  -- C16 / C04: whatever is merged, a caller's own hard lifetime is its own — no coalesced call moves it
+  let mut li : Nat := 0
+  for (_, o) in callers.zip obs do
+    let sj := (o.getObjVal? "sess").toOption.getD Json.null
+    match (sj.getObjVal? "lifetime").toOption.bind (·.getInt?.toOption) with
+    | some l =>
+      let want : Int := (10 + Int.ofNat li) * 3600
+      if l < want - 1 || l > want + 1 then   -- (deadlines are truncated to the second)
+        v := v.mons ["C16", "C04"] "lifetime_unchanged_by_coalesced_call" li s!"caller {li}: lifetime deadline {want} became {l}"
+    | none => pure ()
+    li := li + 1
   -- C19 (on the implementation's own roles and keys): a sign-out's revocation is merged only into a revocation of the
   -- *same token* — a second session of the same user must get its own call to the identity provider
   let mut seen : List (Bytes × Caller × Json) := []
